@@ -26,6 +26,7 @@ Extractors are registered per property in EXTRACTORS below (properties without a
   C18 C03        Gen/SrcSmallInts.lean   (genbits) SmallInts::{real_value,get,push,set,from_elem,len}; SrcBitEnc.lean also holds
                                       BitEnc::{new,push,push_values,set,get,clear,nr_blocks,nr_symbols,len}
   C17            Gen/SrcRankSelect.lean, SrcWavelet.lean   (genbits) superblocks, rank_1, rank_0; check_overflow, prank, rank
+                                      (gensel) + RankSelect::{new,select_x,select_1,select_0}; build_partlevel, WaveletMatrix::new
                                       whole function bodies (kmp::lps, KMP::delta, shift_and::masks, Horspool::new,
                                       FenwickTree::get/set, bitenc mask/addr/get_by_addr/set_by_addr, bwt::bwt,
                                       utils::prescan) translated to Lean by tools/rs2lean.py; the equality theorems
